@@ -119,10 +119,17 @@ impl LogicalLineFileFormatter for OptimisingLineFormatter {
         /*
             Reflowing a line can move a multi-line string that comes later in the same
             line, whose contents then have to be indented again (and the line reflowed
-            again). The two steps are alternated until nothing changes; the bound only
-            guards against an oscillation.
+            again). The two steps are alternated until nothing changes.
+
+            At narrow widths the alternation can oscillate instead (the wrapping depends
+            on the length of the string's last line, which depends on its indentation,
+            which depends on the wrapping). The bound stops that; the strings are then
+            indented once more for the positions they ended up at, see below. The bound
+            is odd so that, with the initial wrapping, the line is wrapped an even number
+            of times: formatting the result again then walks through the same two states
+            and stops at the same one.
         */
-        for _round in 0..4 {
+        for _round in 0..5 {
             let mut lines_to_reflow: Vec<(usize, &LogicalLine)> = vec![];
             for mut line in input.iter().enumerate() {
                 if string_formatter.format_multiline_strings(line.1, olf.formatted_tokens) {
@@ -170,6 +177,15 @@ impl LogicalLineFileFormatter for OptimisingLineFormatter {
                     }
                 }
             }
+        }
+
+        /*
+            The bound was reached with a reflow, which can have moved a string once more.
+            Indent the strings for the lines they are on now, so that none is left
+            indented for a position it no longer has.
+        */
+        for line in input {
+            string_formatter.format_multiline_strings(line, olf.formatted_tokens);
         }
     }
 }
